@@ -194,6 +194,8 @@ class Hist(object):
     def inject(self, a, m, cls, allowed):
         if not self.open_(a):
             return
+        if m[0] in ('MKUx', 'MFinx', 'MHB', 'MKU', 'MUnexp', 'MCV', 'MFin', 'MNST') and not self.live.inject_fits(a, m):
+            return                       # (would be fragmented by the injecting side: not the class meant)
         self.do(a, ('OInject', m, cls, None if allowed is None else list(allowed)))
 
     # -- drain: read on both sides until nothing moves
@@ -446,7 +448,30 @@ def macro(H, name):
             H.do(not a, ('ORead', 0))
 
 
-def deviation(H):
+# every deviation class once (the quick tier runs each of them under every record-size profile)
+DEV13 = ['ku-bad-value', 'ku-bad-len', 'unexp-hs', 'nst-to-server', 'certreq-no-pha', 'certreq-from-client',
+         'cert-unsolicited', 'cert-unknown-ctx', 'cert-to-client', 'cv-stray', 'fin-stray', 'hb-not-negotiated',
+         'hb-empty', 'hb-short-pad', 'hb-unsolicited-resp', 'hb-garbage', 'hb-unknown-type', 'hb-oversize',
+         'hb-oversize-crafted', 'pha-dev', 'pha-empty-compress', 'pha-replay', 'ku-coalesced', 'finx-stray', 'pha-dev7']
+DEV12 = ['unexp-hs', 'hb-not-negotiated', 'hb-empty', 'hb-short-pad', 'hb-unsolicited-resp', 'hb-garbage',
+         'hb-unknown-type', 'hb-oversize', 'hb-oversize-crafted', 'nst-v12']
+PROFILES = {'default': dict(recsize=16384, c_rsl=None, s_rsl=None),
+            'small': dict(recsize=64, c_rsl=64, s_rsl=64),
+            'asym-c': dict(recsize=16384, c_rsl=100, s_rsl=None),
+            'asym-s': dict(recsize=257, c_rsl=None, s_rsl=64)}
+
+
+def fitting_tail(H, a, mk, kinds):
+    """a tail kind for an alignment violation whose record fits the injecting side's record size"""
+    kinds = list(kinds)
+    H.rng.shuffle(kinds)
+    for kind in kinds + ['frag1']:
+        if H.live.inject_fits(a, mk(kind)):
+            return kind
+    return 'frag1'
+
+
+def deviation(H, force=None):
     """one deviation of the peer (or a setting that the property says must be harmless)"""
     rng, L = H.rng, H.live
     v13 = L.v13
@@ -460,21 +485,22 @@ def deviation(H):
     if not v13:
         choices = ['unexp-hs', 'hb-not-negotiated', 'hb-empty', 'hb-short-pad', 'hb-unsolicited-resp', 'hb-garbage',
                    'hb-unknown-type', 'hb-oversize', 'hb-oversize-crafted', 'nst-v12']
-    d = rng.choice(choices)
+    d = force or rng.choice(choices)
     a = rng.random() < 0.5
     hbneg = H.negotiated_hb()
-    if not hbneg and rng.random() < 0.6:
+    if not hbneg and rng.random() < 0.6 and not force:
         d = 'hb-not-negotiated'
     if d == 'ku-coalesced':
         # KeyUpdate (valid or not) followed in its record by a whole message / by the first bytes of one
-        kind = rng.choice(['nst', 'ku', 'frag', 'frag1', 'certreq'])
+        v = rng.choice([0, 0, 1, 1, 2])
+        kind = fitting_tail(H, a, lambda k_: ('MKUx', v, k_), ['nst', 'ku', 'frag', 'frag1', 'certreq'])
         if rng.random() < 0.4:
             H.do(a, ('OKeyUpdate', rng.random() < 0.5))      # (a correctly aligned one first)
-        H.inject(a, ('MKUx', rng.choice([0, 0, 1, 1, 2]), kind), d + ':' + kind, (10,))
+        H.inject(a, ('MKUx', v, kind), d + ':' + kind, (10,))
         if rng.random() < 0.5:
             H.do(a, ('OWrite', rdata(rng, 30)))
     elif d == 'finx-stray':
-        H.inject(a, ('MFinx', False, rng.choice(['nst', 'ku', 'frag'])), d, (10,))
+        H.inject(a, ('MFinx', False, fitting_tail(H, a, lambda k_: ('MFinx', False, k_), ['nst', 'ku', 'frag'])), d, (10,))
     elif d == 'ku-bad-value':
         H.inject(a, ('MKU', rng.choice([2, 3, 255, 128])), d, (47,))
     elif d == 'ku-bad-len':
@@ -580,7 +606,16 @@ def run_history(args):
     rng = random.Random(seed)
     live = None
     try:
-        if fixed is not None:
+        force = None
+        if fixed is not None and 'force' in fixed:
+            # systematic part of the plan: one deviation class under one record-size profile
+            cfg = gen_cfg(rng, klass, seed)
+            cfg.update(PROFILES[fixed['profile']])
+            cfg.update(c_cert=fixed['force'] != 'certreq-no-pha', c_hb=True, s_hb=fixed['force'] != 'hb-not-negotiated')
+            if tuple(cfg['ver']) != (3, 4):
+                cfg['nst'] = -1
+            force, fixed = fixed, None
+        elif fixed is not None:
             cfg = fixed['cfg']
         else:
             cfg = gen_cfg(rng, klass, seed)
@@ -590,6 +625,13 @@ def run_history(args):
         if fixed is not None:
             for (a, op) in fixed['ops']:
                 H.do(a, op)
+            H.finish()
+            fin = live.final()
+        elif force is not None:
+            H.tags.add('grid:%s:%s' % (force['force'], force['profile']))
+            random_ops(H, rng.randrange(0, 7))
+            deviation(H, force=force['force'])
+            random_ops(H, rng.randrange(0, 5))
             H.finish()
             fin = live.final()
         else:
@@ -780,8 +822,17 @@ def eval_cases(ctx, lits, shard):
 # ------------------------------------------------------------------------------------------
 def plan(ctx):
     quick = ctx.tier == 'quick'
-    n = 300 if quick else 4000
+    n = 220 if quick else 3000
     jobs = []
+    # corpus first: every deviation class x every record-size profile (so that the quick tier reaches
+    # every class/size combination the thorough tier can reach), then random histories
+    for rep_ in range(1 if quick else 3):
+        for prof in sorted(PROFILES):
+            for d in DEV13:
+                jobs.append((ctx.rng.randrange(1 << 48), 'deviant', 0, {'force': d, 'profile': prof}))
+            for d in DEV12:
+                if prof in ('default', 'small'):
+                    jobs.append((ctx.rng.randrange(1 << 48), 'old', 0, {'force': d, 'profile': prof}))
     for i in range(n):
         seed = ctx.rng.randrange(1 << 48)
         r = i % 20
